@@ -74,10 +74,10 @@ CHECKS = {
          "Decides that the warnings the generator's source produces on a catalogue covering every operator on the left edge, nullable prefixes, indirect/unreachable cycles, stubs, unused chains and duplicate definitions are exactly the oracle's sets, that duplicates are diagnosed rather than crashing, and that Strict turns any warning into a returned error before anything is written. Exactness beyond the catalogue follows from the walkers being structural (one case per operator).",
          "DESIGN.md §4 C15",
          "Trusts the interpreter and the oracle in c15.go; the CLI half is C18; builder calls as in peg.peg (C10)."),
- "C10": ("independent .peg reader + builder stack-effect type system over peg.peg (builder summaries obtained by evaluating each Add* method's source on a marked tree; least-fixpoint typing of the grammar), escape-table decoding, exhaustive evaluation of the octal decoder over its capture patterns, grammar-graph reachability rules for quoting, classes, precedence and operator routing, evaluation of Compile's import pass and the template's formatImport literal on builder-made import lists, shape rule for the brace-balanced action text",
-         "Decides structural conditions on the self-hosted grammar and its builder: every rule has one net stack effect and never underflows (so every primary pushes exactly one node for every grammar text), escapes denote the documented code points, quoting/class forms reach the right builders, operator punctuation routes to its builder, precedence is stratified, both comment/arrow spellings exist, imports are printed once each with exactly their alias and path, action text is brace-balanced, the start rule demands end of input. Partial: that each construct behaves as documented once built is C01's subject; whitespace spellings are not enumerated.",
+ "C10": ("differential evaluation of peg.peg as data (PEG semantics with actions on the successful derivation; recorded builder calls executed on the builder's source by the Go-subset interpreter) against an independent reader written from the documentation, on a construct corpus plus every short string over the token alphabet and on whole grammar files; builder stack-effect type system over peg.peg (least-fixpoint typing); string-level comparison of lexical rules over small alphabets; evaluation of the numeric decoders, the case-folding builders, Compile's import pass and the template's formatImport literal",
+         "Decides that documented expression syntax (every construct, escape, quoting style, class form, operator, precedence combination, spacing/comment spelling; every string of at most 3/4 token characters) is accepted and built into the documented tree, that malformed text is rejected (expressions and whole files incl. trailing garbage), that imports keep alias and path, action text is brace-balanced, every rule of peg.peg has one net builder stack effect and never underflows. Bounded: corpus + enumerated lengths. Not decided: that peg.peg.go is the output for peg.peg (TestSame); behaviour of the built tree (C01).",
          "DESIGN.md §4 C10",
-         "Trusts pegreader.go (written from the documentation), the interpreter for builder summaries, C04 (actions replay in derivation order)."),
+         "Trusts pegreader.go (the documented syntax; its choices for spellings the documentation leaves open are marked 'unspecified' and skipped), the PEG evaluator in c10c.go, the interpreter for the builder, C04 (actions replay in derivation order)."),
 }
 
 NOT_APPLICABLE = {
